@@ -10,6 +10,7 @@ require (
 
 require (
 	github.com/hashicorp/go-set/v3 v3.0.0 // indirect
+	github.com/matrix-org/gomatrix v0.0.0-20220926102614-ceba4d9f7530 // indirect
 	github.com/matrix-org/util v0.0.0-20221111132719-399730281e66 // indirect
 	github.com/oleiade/lane/v2 v2.0.0 // indirect
 	github.com/tidwall/gjson v1.18.0 // indirect
